@@ -36,7 +36,7 @@ ASSUMPTIONS = [
     "no other live node has taken over a serialized id at deserialization time (alive-subsets arise from dropping handles / detaching whole trees)",
     "Any-typed properties, NaN/inf, lone surrogates and ints beyond 64 bits are outside the generator",
 ]
-MUST_SEE = ["subclass_clear_registry_calls", "union_field_non_first_member", "other_dialect_call_before_roundtrip", "recreated_with_suffix_id", "shared_subtrees", "fresh_process_cases", "subforest_alive", "none_alive", "all_alive", "multi_origin", "hostile_strings", "index_sources", "yaml", "msgpck", "json", "failed_call_before_roundtrip"]
+MUST_SEE = ["equal_but_distinct_source_objects", "subclass_clear_registry_calls", "union_field_non_first_member", "other_dialect_call_before_roundtrip", "recreated_with_suffix_id", "shared_subtrees", "fresh_process_cases", "subforest_alive", "none_alive", "all_alive", "multi_origin", "hostile_strings", "index_sources", "yaml", "msgpck", "json", "failed_call_before_roundtrip"]
 CONFIG = {
     "quick": {"shards": 16, "trees": 60, "fresh": 6, "watchdog_s": 600},
     "thorough": {"shards": 32, "trees": 400, "fresh": 60, "watchdog_s": 3400},
@@ -199,7 +199,11 @@ def run_shard(ctx):
                 # content-identical twins outside the tree, registered first -> the tree's nodes get suffix ids
                 tw = build(U, deep_copy(s))
                 twins.append(tw)
-            root = build(U, s)
+            distinct_sources = rng.random() < 0.25
+            if distinct_sources:
+                # every origin carries its own source object, equal to but distinct from the registered one
+                ctx.count("equal_but_distinct_source_objects")
+            root = build(U, s, origin_fn=(lambda sp: O.build_origin(sp.origin, src=O.fresh_source)) if distinct_sources else None)
             C = type(root)
             detail = {"tree": spec_json(s), "format": fmt, "alive": alive_mode, "options": sorted(str(k) for k in opts), "forced_suffix": force_suffix}
             ctx.evaluations += 1
